@@ -14,12 +14,13 @@ func main() {
 	repo := flag.String("repo", "/repo", "repository root")
 	out := flag.String("out", "coq/gen", "output directory for generated .v files")
 	params := flag.String("params", "build/params.json", "output file for extracted parameters")
+	stubs := flag.String("stubs", "", "directory for the generated Go handler stubs (tools/internal/stubs)")
 	flag.Parse()
 	if err := os.MkdirAll(*out, 0o755); err != nil {
 		fmt.Fprintln(os.Stderr, err)
 		os.Exit(1)
 	}
-	g := &gen{repo: *repo, out: *out, params: map[string]interface{}{}}
+	g := &gen{repo: *repo, out: *out, stubsDir: *stubs, params: map[string]interface{}{}}
 	g.run()
 	g.writeParams(*params)
 	if g.failed {
